@@ -129,6 +129,39 @@ func (f *flakyReader) Read(p []byte) (int, error) {
 	return n, nil
 }
 
+// peekedSource is a stream whose first bytes were read ahead into a buffer: Read delivers the buffer and
+// then the rest; Len, Size, ReadByte and ReadAt know about the buffered head only.
+type peekedSource struct {
+	head []byte
+	pos  int
+	rest io.Reader
+}
+
+func (p *peekedSource) Read(b []byte) (int, error) {
+	if p.pos < len(p.head) {
+		n := copy(b, p.head[p.pos:])
+		p.pos += n
+		return n, nil
+	}
+	return p.rest.Read(b)
+}
+func (p *peekedSource) Len() int    { return len(p.head) - p.pos }
+func (p *peekedSource) Size() int64 { return int64(len(p.head)) }
+func (p *peekedSource) ReadAt(b []byte, off int64) (int, error) {
+	if off >= int64(len(p.head)) {
+		return 0, io.EOF
+	}
+	n := copy(b, p.head[off:])
+	if n < len(b) {
+		return n, io.EOF
+	}
+	return n, nil
+}
+
+type onlyReader struct{ r io.Reader }
+
+func (o onlyReader) Read(b []byte) (int, error) { return o.r.Read(b) }
+
 type tempErr struct{}
 
 func (tempErr) Error() string   { return "temporarily unavailable" }
@@ -255,6 +288,46 @@ func TestC07(t *testing.T) {
 				}
 				c.Sig(fmt.Sprintf("source-fails|kind%d", i), true)
 			})
+		}
+	}
+	// sources that offer more than Read - a Len() that reports only what is buffered so far (a stream
+	// whose head was peeked at), a Size(), a Stat-like method, ReadByte, ReadAt: the file is the bytes Read
+	// delivers, under the chunker that was asked for, whatever else the source can do
+	for _, ch := range []string{"", "default", "size-16", "size-262144"} {
+		for _, n := range []int{1000, 5000, 300000} {
+			for peek := 0; peek < 3; peek++ {
+				ch, n, peek := ch, n, peek
+				r.Case(fmt.Sprintf("source-extras/ch%s/n%d/peek%d", ch, n, peek), map[string]any{"chunker": ch, "len": n, "source": "Read plus Len/Size/ReadByte/ReadAt reporting the peeked head only"}, func(c *mon.Case) {
+					content := gen.Content(c.Rand(), "rand", n)
+					head := []int{0, 100, 4096}[peek]
+					if head > n {
+						head = n
+					}
+					var l ipld.Link
+					var bsize uint64
+					var berr error
+					withWidth(174, func() {
+						l, bsize, berr = builder.BuildUnixFSFile(&peekedSource{head: content[:head], rest: bytes.NewReader(content[head:])}, ch, store.New().LinkSystem(false))
+					})
+					rch := ch
+					if rch == "" {
+						rch = "default"
+					}
+					rroot, rsize, rerr := oracle.RefImport(store.New(), onlyReader{bytes.NewReader(content)}, rch, 174, oracle.ImportMode{Layout: "balanced", RawLeaves: true, CidV1: true})
+					if rerr != nil {
+						c.Harness("reference importer: %v", rerr)
+						return
+					}
+					c.Count("compared", 1)
+					c.Count("sources_with_extra_methods_compared", 1)
+					if berr != nil {
+						c.Violation("C07|build-error", "source with extra methods, chunker %q, %d bytes: %v", ch, n, berr)
+					} else if !linkCid(l).Equals(rroot) || bsize != rsize {
+						c.Violation("C07|root-differs|source-extras", "%d bytes, chunker %q, from a source whose Len()/Size() report its %d peeked bytes: builder (%s, %d), reference from a plain reader (%s, %d)", n, ch, head, l, bsize, rroot, rsize)
+					}
+					c.Sig(fmt.Sprintf("source-extras|%s|%d", ch, peek), true)
+				})
+			}
 		}
 	}
 	// a source that fails ONCE and would carry on if asked again (a read deadline that expired, an
